@@ -61,6 +61,9 @@ def reset_steps():
     del SEEN[:]
 
 
+chooser.BEGIN_HOOKS.append(reset_steps)
+
+
 def _wrap_run_step(cls):
     orig = cls.__dict__.get("_run_step")
     if orig is None or getattr(orig, "_vk_wrapped", False):
